@@ -12,7 +12,9 @@ the well-formedness predicate of trees.  Core Lean only.
 * `cover_sets` is a function from scale to the list of `(distance, node)` pairs in insertion order.
 * `halfsort` only reorders a cover set: it is a parameter `hsort` of the model, the theorems hold for every
   `hsort` that returns a permutation of its argument (the real `halfsort` only swaps entries); the driver runs
-  the identity and compares candidate *sets*.
+  the identity and compares candidate *sets*.  In the code as it stands `halfsort(v_array<d_node<P>> cover_set)` takes
+  its argument BY VALUE and `v_array::elements` is a `std::vector` (deep copy): the caller's set is left as it was, so
+  the identity is the exact model (the driver's `mqorder` diagnostic: identical candidate ORDER on every tree).
 * batch construction (`batch_create`) is modelled in `Model/CoverBuild.lean` (theorem `batchCreate_wf`: its tree
   satisfies `wfTree`); the driver runs this model on the tree the real code built (dumped by the harness) after
   checking `wfTree` on it, and compares that tree with the one `CoverBuild.batchCreate` builds.
